@@ -20,3 +20,15 @@ func VerifNewClient(conn net.Conn, peer bpv7.EndpointID) *MTCPClient {
 	c.reportChan = make(chan cla.ConvergenceStatus, 16)
 	return c
 }
+
+// VerifNewClientLive is VerifNewClient plus the client's real handler goroutine (keep-alive ticker, stop handling),
+// exactly as Start launches it after dialling.
+func VerifNewClientLive(conn net.Conn, peer bpv7.EndpointID) *MTCPClient {
+	c := NewMTCPClient("verif", peer, false)
+	c.conn = conn
+	c.reportChan = make(chan cla.ConvergenceStatus, 16)
+	c.stopSyn = make(chan struct{})
+	c.stopAck = make(chan struct{})
+	go c.handler()
+	return c
+}
